@@ -247,7 +247,8 @@ def replay(cex):
     else:
         g0, hname, step = g.split("#")
         hist = HISTORIES[hname][:int(step)]
-    call = f"FullGrid({s['alg_b']}{s['n_b']!r}, {s['alg_o']}{s['n_o']!r}, {_t_string(s['n_t'])!r}, position_grid_cartesian={s['cartesian']})" + \
+    _bn, _on = s.get("names") or (f"{s['alg_b']}{s['n_b']}", f"{s['alg_o']}{s['n_o']}")
+    call = f"FullGrid({_bn!r}, {_on!r}, {_t_string(s['n_t'])!r}, position_grid_cartesian={s['cartesian']})" + \
         (f" after {list(hist)} on the same object: " if hist else ".") + f"{g0}()"
     try:
         with cl.redirect_stdout(io.StringIO()):
